@@ -1,11 +1,13 @@
 package b2f
 
 import (
+	"bufio"
 	"bytes"
 	"crypto/md5"
 	"encoding/json"
 	"flag"
 	"fmt"
+	"io"
 	"log"
 	"math/rand"
 	"os"
@@ -46,6 +48,9 @@ type SecureCfg struct {
 	AuxPw    map[string]string `json:"auxpw"`    // aux address -> password ("" = none)
 	AuxErr   bool              `json:"auxerr"`   // the callback reports an unknown auxiliary password with an error
 	Callback string            `json:"callback"` // "ok", "none" (not registered), "error"
+	// FirstTry: before the recorded session the same Session object has had a login refused: it answered this challenge
+	// with this (wrong) password, the remote said "*** Secure login failed"; the application retries with the right one
+	FirstTry [2]string `json:"firsttry"`
 }
 
 var sidVariants = []string{"[WL2K-5.0-B2FWIHJM$]", "[RMS Express-1.5.35.0-B2FHM$]", "[FBB-7.00-AB1B2FHM$]", "[wl2kgo-0.1a-b2fhm$]",
@@ -204,6 +209,7 @@ func RunPeerScenario(ps *PeerScenario) ([]rec.Event, Result) {
 	for _, a := range ps.Aux {
 		sess.AddAuxiliaryAddress(fbb.AddressFromString(a))
 	}
+	firstTry := false
 	if sec := ps.Secure; sec != nil && sec.Callback == "nil" {
 		sess.SetSecureLoginHandleFunc(nil) // explicitly un-registered: the same as never registered
 	} else if sec != nil && sec.Callback == "setnil" {
@@ -221,8 +227,38 @@ func RunPeerScenario(ps *PeerScenario) ([]rec.Event, Result) {
 				}
 				return pw, nil
 			}
+			if firstTry {
+				return sec.FirstTry[1], nil
+			}
 			return sec.Password, nil
 		})
+	}
+	if sec := ps.Secure; sec != nil && sec.FirstTry[0] != "" && ps.Script.Master {
+		firstTry = true
+		l0 := NewLink(ps.Seed + 1)
+		go func() {
+			b := l0.End("B")
+			defer b.Close()
+			io.WriteString(b, ps.Script.Sid+"\r;PQ: "+sec.FirstTry[0]+"\rCMS >\r")
+			rd := bufio.NewReader(b)
+			for {
+				line, err := rd.ReadString('\r')
+				if err != nil {
+					return
+				}
+				if strings.HasPrefix(line, "F") { // the station's first command: the login is refused now
+					io.WriteString(b, "*** Secure login failed - account password does not match\r")
+					return
+				}
+			}
+		}()
+		func() {
+			defer func() { recover() }()
+			a := l0.End("A")
+			sess.Exchange(a)
+			a.Close()
+		}()
+		firstTry = false
 	}
 	var gate chan struct{}
 	if ps.Script.HangUpAfterFQ {
@@ -434,6 +470,11 @@ func MainC16(args []string) int {
 		mk(fmt.Sprintf("%08d", 20000000+c), "PASS", nil, nil, "ok")
 	}
 	mk("2375352>", "FOOBAR", nil, nil, "ok")
+	// a retry on the same Session after a refused login: the answer is for this challenge and the password of this try
+	for _, c := range []string{"11112222", "87654321"} {
+		mk(c, "right-password", nil, nil, "ok")
+		scs[len(scs)-1].Secure.FirstTry = [2]string{"55556666", "wrong-password"}
+	}
 	mk("23753528", "FOOBAR", nil, nil, "setnil")
 	auxCalls := []string{"LA9AUX", "ops@example.org", "LA8TAC-1", "N0CALL"}
 	for i := 0; i < *n; i++ {
